@@ -1087,6 +1087,15 @@ func (db *DB) Repair(of Object) (err error) {
 		return
 	}
 
+	// we de-index missing objects first, so that the values they
+	// hold do not conflict with the ones of the objects to re-index
+	for uuid := range s.ObjectIndex.uuids {
+		if !uuids[uuid] {
+			// if object is not on disk and is in index
+			s.unindexByUUID(uuid)
+		}
+	}
+
 	// we re-index missing uuids
 	for uuid := range uuids {
 		// we don't re-index already indexed objects
@@ -1100,14 +1109,6 @@ func (db *DB) Repair(of Object) (err error) {
 
 		if err = s.index(o); err != nil {
 			return
-		}
-	}
-
-	// we de-index missing objects
-	for uuid := range s.ObjectIndex.uuids {
-		if !uuids[uuid] {
-			// if object is not on disk and is in index
-			s.unindexByUUID(uuid)
 		}
 	}
 
